@@ -126,13 +126,14 @@ def run(rep, F, ctx):
             rep.add('ENTRY-DEFAULTS', 'entrydefault:%s' % meth, '%s has a default body' % fn, False, detail='missing')
             continue
         B = cg.body(fn)
-        cs = [(tt.get('callee') or '').split('::')[-1] for i, tt in B.calls()]
-        ands = [s['rv'] for i, j, s in B.assigns() if s['rv']['k'] == 'binop' and s['rv']['op'] == 'BitAnd']
-        cmps = [s['rv'] for i, j, s in B.assigns() if s['rv']['k'] == 'binop' and s['rv']['op'] in ('Ne', 'Eq')]
-        ok = cs == ['mode'] and len(ands) == 1 and any(o['k'] == 'const' and o.get('int') == str(const) for o in (ands[0]['l'], ands[0]['r'])) \
-            and len(cmps) == 1 and cmps[0]['op'] == cmp_ and any(o['k'] == 'const' and o.get('int') == '0' for o in (cmps[0]['l'], cmps[0]['r']))
+        # the value the default body returns, described structurally (temporaries and helpers that did not exist in the confirmed tree are seen through)
+        import siteguard as _sgd
+        res = _sgd.collect(F, cg, [fn]).get(fn + '|result', [])
+        vals = sorted({r[0] for r in res})
+        want = {'%s(BitAnd(mode(arg1),%d),0)' % (cmp_, const), '%s(BitAnd(%d,mode(arg1)),0)' % (cmp_, const), '%s(0,BitAnd(mode(arg1),%d))' % (cmp_, const)}
+        ok = len(vals) == 1 and vals[0] in want and all(len(r) == 1 for r in res)
         rep.add('ENTRY-DEFAULTS', 'entrydefault:%s' % meth, 'Entry::%s == (mode() & %s %s 0)' % (meth, oct(const), '!=' if cmp_ == 'Ne' else '=='), ok,
-                '%s:%d' % (B.file, B.line), '' if ok else 'Entry::%s is computed differently (calls %s)' % (meth, cs))
+                '%s:%d' % (B.file, B.line), '' if ok else 'Entry::%s is computed differently: returns %s' % (meth, vals))
         for ety in ('sys::fs::memfs::entry::MemfsEntry', 'sys::fs::stdfs::entry::StdfsEntry'):
             over = '<%s as %s>::%s' % (ety, ENTRY_TR, meth)
             ok = over not in F.bodies
